@@ -25,6 +25,9 @@ Definition cordered (I : image) (o : obj) : bool :=
 Definition finished (I : image) (o : obj) : bool := is_terminal (cst I o).   (* Completed | Failed | Stopped *)
 (* the last durable attempt of an action has no error: its success is durable *)
 Definition succeeded (I : image) (a : aref) : bool := (0 <? cn I (OAct a)) && cok I (OAct a).
+(* the action has a durable result: an attempt is only stored complete, with its response or its error (a plugin's
+   own error or the engine's timeout error alike) *)
+Definition has_result (I : image) (a : aref) : bool := 0 <? cn I (OAct a).
 
 (* ------------------------------------------------------------------ C09 *)
 (* may the plugin of action a be invoked by a process that restarts on image I ? *)
@@ -37,7 +40,9 @@ Definition may_start (I : image) (a : aref) : bool :=
       negb (finished I (OBlock b))                    (* nothing inside a finished block *)
       && negb (finished I (OSeq b q))                 (* nothing inside a finished sequence *)
       && negb (finished I (OAct a))                   (* not a finished action *)
-      && negb (succeeded I a)                         (* not an action whose success is durable *)
+      && negb (has_result I a)                        (* only an action "durably Running WITHOUT a durable result": none
+                                                         whose success is durable, and none with a recorded failed
+                                                         attempt either (repair makes it Failed, it is never retried) *)
   end.
 
 Fixpoint first_bad_start (I : image) (tr : list event) (i : nat) : option nat :=
